@@ -47,6 +47,7 @@ Definition run_C13 (i : term) : term :=
   else if String.eqb op "nm" then
     let tab := shift_syms (gz (gn i 1)) (map sym_of (gl (gn i 2))) in
     TL (map (fun a => of_optname (addr_info tab a)) (gzs (gn i 3)))
+  else if String.eqb op "maps" then TL []
   else TL [TS "unknown-op"].
 
 (* objaddr cases produced by the loader-driven generators carry the load bias (-1 = none) *)
@@ -80,6 +81,12 @@ Definition spec_C13 (i o : term) : bool :=
     let addrs := gzs (gn i 3) in
     (List.length addrs =? List.length (gl o))%nat &&
     forallb (fun ar => spec_addr_info tab (fst ar) (optname_of (snd ar))) (combine addrs (gl o))
+  else if String.eqb op "maps" then
+    (* a file-backed line of /proc/self/maps of a real process: it must be a piece of the image the
+       loader model predicts for one of the segments (validates S_Elf against the kernel) *)
+    let ef := elf_of (gn i 1) in
+    let bias := gz (gn i 3) in
+    existsb (fun p => loadable p && seg_okb p && load_okb p bias && pieceb (case_emap i) (image p bias)) (e_progs ef)
   else true.
 
 Definition judge_C13 := judge_all run_C13 eqv_exact spec_C13 cls_C13 0%Z.
